@@ -698,7 +698,11 @@ var partNumbers = []int{1, 2, 3, 7, 100, 9999, 10000}
 
 func (g *G) genC06(p *Plan, listing bool) {
 	c := &p.Config
-	g.backend(c, allBackends, false)
+	c.Faulty = !listing && g.chance(0.2)
+	g.backend(c, allBackends, c.Faulty)
+	if c.Faulty && (!c.IsFS() || c.FS != "simfs") {
+		c.Faulty = false
+	}
 	if listing {
 		g.backend(c, []string{"mem", "mem", "bolt", "multifs"}, false)
 	}
@@ -739,6 +743,9 @@ func (g *G) genC06(p *Plan, listing bool) {
 			uploaded[up] = append(uploaded[up], pn)
 		case r < 62:
 			op = Op{K: "mpu-complete", Up: up, Parts: g.partList(uploaded[up])}
+			if c.Faulty && g.chance(0.4) {
+				op.Faults = []Fault{{Kind: g.pick("eio", "enospc"), At: g.n(1, 12), N: g.n(0, 10)}}
+			}
 		case r < 68:
 			op = Op{K: "mpu-abort", Up: up}
 		case r < 78:
